@@ -391,6 +391,35 @@ PROPS['C19'] = dict(
                "(checked only by measurement); runtime.MemStats. Axioms: none.",
 )
 
+BRANCH_NAMES['converge'] = ['histories', 'rounds', 'histories-ending-at-the-target']
+PROPS['C14'] = dict(
+    level='proof',
+    projections=[dict(name='converge', spec_index=1, strict_index=2, n_quick=40, n_thorough=600, timeout=1500),
+                 dict(name='history', spec_index=6, **HIST_N)],
+    rule="converge: chained Observation -> ValidateObservation -> Outcome rounds of the real plugin (bound + 1..3 rounds) from a starting channel "
+         "set towards a fixed target, f = 1..3, f+1..2f+1 correct observers and up to f faulty ones voting random removals and competing "
+         "definitions every round. Directed: 2000 channels with 5 / 7 ids swapped (at the cap), 1998 channels + additions and in-place "
+         "replacements, a 2010-channel target, two channels sharing 5001 streams under different aggregators (10002 pairs), exactly 10000 and "
+         "10001 unique streams, the F1 witness, empty start / empty target; then random sets of 0..25 channels incl. targets derived from the "
+         "start. Per round Coq receives the accepted votes and the implementation's definition diff. history: see C03 (its C14 predicate). "
+         "Distinct by SHA-1 of the input.",
+    explanation="Theorems C14_* prove on the model of plugin_outcome.go's definition step, for every hash function, f, current and target set and "
+                "every vote pattern of at most f faulty observers among >= f+1 correct ones: the 2000-channel cap always holds; only changes "
+                "voted by correct nodes happen; one round performs exactly the first 5 removals and first 5 additions/replacements (pointwise); "
+                "the distance lists shrink by 5 each round, so after ceil(max(#remove,#add-or-replace)/5) rounds the set equals the target and "
+                "then stays equal. H_cap (ids of current and target together fit the cap) is the only size hypothesis; at the cap itself and "
+                "for the stream-count limit (never refuses: known finding F1 outside H_streams) the harness decides on the real plugin chain. "
+                "The model's step is compared with the real Outcome on every generated round and the property predicate (votes accepted, no "
+                "refusal, bound met, cap) is evaluated on the real results.",
+    assumptions=["all correct nodes see the same valid target from some round on; at least f+1 correct and at most f faulty accepted observations per round; instance not retired",
+                 "H_cap: size(dom current ∪ dom target) <= 2000 (theorems); H_streams: the union has <= 10000 unique streams (else known finding F1)"],
+    level_text="Coq theorems over all histories of rounds (unbounded length, any faulty votes) about the modelled definition step with the votes of "
+               "correct nodes: cap, vote determination, exact per-round progress, convergence within the bound, stability; tied to the Go "
+               "plugin by a per-round differential check of chained real rounds. PARTIAL at the cap (H_cap) and for validation acceptance "
+               "of the votes (checked on the implementation).",
+    level_note="Trusted: Coq kernel + vm_compute; hand-written model of the vote computation and the definition step; harness mocks. Axioms: none.",
+)
+
 
 def load_known_findings(root):
     p = os.path.join(root, 'known_findings.jsonl')
